@@ -566,6 +566,9 @@ def replay(spec):
     if kind == "dorfler":
         bad = dorfler_case(spec)
         return dict(clauses=sorted({c for c, _ in bad}), details=[list(b) for b in bad[:10]])
+    if kind == "interleaved":
+        bad = interleaved_case(spec)
+        return dict(clauses=sorted({c for c, _ in bad}), details=[list(b) for b in bad[:10]])
     if kind == "grading":
         # process history: earlier refine_grading calls (other exponents, fresh copies of the same mesh) of the same process
         for ps in spec.get("prior", []):
@@ -703,6 +706,84 @@ class Findings:
 # =====================================================================================================
 # 5. breadth-first exploration
 # =====================================================================================================
+def interleaved_case(spec):
+    """Several meshes alive at once with interleaved life cycles.  spec['events'] is a list of ["build", k] (construct mesh k from
+    spec['inits'][k]) and ["op", k, op] (apply op to mesh k); after every operation the affected mesh is checked against its own
+    reference (full class invariant incl. unique element indices), at the end every mesh."""
+    inits = [Init.from_spec(d) for d in spec["inits"]]
+    runs, bad = {}, []
+    for ev in spec["events"]:
+        if ev[0] == "build":
+            with contextlib.redirect_stdout(io.StringIO()):
+                runs[ev[1]] = Run(inits[ev[1]])
+        else:
+            run = runs[ev[1]]
+            if run.broken:
+                continue
+            for c, d in run.apply(op_parse(ev[2]), check=True):
+                bad.append((c, "mesh {} ({}): {}".format(ev[1], inits[ev[1]].name, d)))
+    for k, run in sorted(runs.items()):
+        if not run.broken:
+            for c, d in well_formed(run.mesh, run.init, run.view):
+                bad.append((c, "mesh {} ({}) at the end: {}".format(k, inits[k].name, d)))
+    return bad
+
+
+def interleaved_specs(tier, seed):
+    """deterministic schedules: the meshes are constructed in every order, a further (smaller / larger) mesh is constructed between
+    the construction and the first bisection of another one, and the bisections alternate between the meshes"""
+    rng = random.Random(4242 + seed)
+    names = [("3x1-glued", "1x1-open", "2x1-glued"), ("2x2-open", "1x1-glued", "1x2-open"), ("1x1-open", "2x2-glued", "1x1-glued"),
+             ("uneven-glued", "1x2-glued", "3x1-open")]
+    if tier == "thorough":
+        names += [("2x2-glued", "2x1-open", "1x1-open"), ("3x1-open", "1x2-open", "2x2-open"), ("1x2-glued", "1x1-open", "3x1-glued")]
+    specs = []
+    for trio in names:
+        inits = [FAMILIES[n] for n in trio]
+        for pattern in ("all-first", "late-third", "late-second"):
+            views = {}
+            events = []
+            def build(k):
+                events.append(["build", k])
+                views[k] = inits[k].view()
+            def op(k):
+                rects = sorted(views[k].leaves)
+                r = rects[rng.randrange(len(rects))]
+                ax = rng.randrange(2)
+                kind = rng.random()
+                o = ("axis", r, ax) if kind < 0.8 else (("refine", r) if kind < 0.95 else ("uniform",))
+                views[k] = reference_apply_fast(views[k], o)
+                events.append(["op", k, op_json(o)])
+            if pattern == "all-first":
+                build(0), build(1), build(2)
+                order = [0, 1, 2, 0, 2, 1, 0, 0, 1, 2]
+            elif pattern == "late-third":
+                build(0), build(1)
+                op(1)
+                build(2)
+                order = [0, 2, 1, 0, 2, 0, 1, 2]
+            else:
+                build(0)
+                build(1)
+                order = [1, 1]
+                for k in order:
+                    op(k)
+                build(2)
+                order = [0, 2, 0, 1, 2, 0]
+            for k in order:
+                op(k)
+            specs.append(dict(kind="interleaved", inits=[i.spec() for i in inits], events=events, pattern=pattern))
+    return specs
+
+
+def _interleaved_task(spec):
+    try:
+        bad = interleaved_case(spec)
+    except BaseException as e:       # noqa
+        bad = [(REAL_NAME["refine"] + "/no-raise", "interleaved schedule: {}: {}".format(type(e).__name__, e))]
+    return spec, bad
+
+
 def _scale(init, depth):
     return init.den * 2 ** (depth + 2)
 
@@ -1461,6 +1542,24 @@ def _run_structure(chk, prop, tier, seed, pool, log):
                     "it created)".format(ref.FULL_SCAN_LIMIT),
                     rr["samples"])
     log("random: {} evaluations in {:.1f}s".format(rr["evals"], time.time() - t0))
+    # several meshes alive at once (class- or module-level bookkeeping shared between meshes shows only here)
+    specs = interleaved_specs(tier, seed)
+    ctx = multiprocessing.get_context("fork")
+    with ctx.Pool(min(NPROC, len(specs)), maxtasksperchild=1) as p1:
+        outs = p1.map(_interleaved_task, specs, 1)
+    n_ops = 0
+    for spec, bad in outs:
+        n_ops += sum(1 for ev in spec["events"] if ev[0] == "op")
+        seen_c = set()
+        for clause, detail in bad:
+            if clause not in seen_c and mine(clause):
+                seen_c.add(clause)
+                fd.add_fail(_failure("interleaved", clause, spec, detail, len(spec["events"])))
+    fd.mark_checked("interleaved", own, n_ops)
+    chk.add_bounded("{}/bounded/interleaved-meshes".format(prop), n_ops, len(specs),
+                    "{} schedules with three meshes alive at once (construction orders: all first / a third mesh constructed between the "
+                    "construction and the first bisection of another / after two bisections), 8-10 alternating operations".format(len(specs)),
+                    "full class invariant of the affected mesh after every operation and of every mesh at the end", [outs[0][0]["pattern"]])
     return fd.emit(chk, prop, mine)
 
 
